@@ -289,8 +289,13 @@ class Rewriter:
             # R4 functional casts T(e) -> ((T)(e))
             def mk_fcast(m, args, whole, pc):
                 return '((%s)(%s))' % (m.group(1), args)
+            # functional casts only occur in the body; the parameter list may hold declarators such as `DT_ (*v)[N]`
+            _po = s.index('(')
+            _pc = match_close(s, _po)
+            _head, _body = s[:_pc + 1], s[_pc + 1:]
             for _ in range(4):
-                s = self._balanced_sub('R4', r'(?<![\w:.>])(%s)\s*(?=\()' % (T + '|double|float|int'), mk_fcast, s)
+                _body = self._balanced_sub('R4', r'(?<![\w:.>])(%s)\s*(?=\()' % (T + '|double|float|int'), mk_fcast, _body)
+            s = _head + _body
         # R6 Math::
         s = self._sub('R6', r'\bMath::(abs|min|max|sqr|sqrt|isnan|isfinite|isnormal|signum|pow|cub)\s*(?=\()', r'FEAT_\1', s)
         s = self._sub('R6', r'\bMath::eps\s*<\s*(\w+)\s*>\s*\(\s*\)', r'FEAT_eps(\1)', s)
@@ -429,8 +434,10 @@ def find_loops(s):
                 pc = match_close(s, j)
                 counter[0] += 1
                 label = prefix + str(counter[0])
-                loops.append(Loop(label, kw, i, pc + 1))
-                return stmt(pc + 1, label + '.', [0])
+                lp = Loop(label, kw, i, pc + 1)
+                loops.append(lp)
+                lp.end = stmt(pc + 1, label + '.', [0])
+                return lp.end
             if kw == 'do':
                 counter[0] += 1
                 label = prefix + str(counter[0])
@@ -444,7 +451,8 @@ def find_loops(s):
                 po = skip_ws(e + 5)
                 pc = match_close(s, po)
                 lp.ins_pos = pc + 1
-                return s.index(';', pc) + 1
+                lp.end = s.index(';', pc) + 1
+                return lp.end
             if kw in ('if', 'switch'):
                 pc = match_close(s, j)
                 e = stmt(pc + 1, prefix, counter)
@@ -475,6 +483,9 @@ def find_loops(s):
 
     block(bo + 1, bc, '', [0])
     # loops list is in discovery order == source order of keywords? ensure sort
+    # CBMC numbers the loops of a function by the position of their back edge: innermost/earliest-ending first
+    for n, lp in enumerate(sorted(loops, key=lambda l: l.end)):
+        lp.cbmc_id = n
     loops.sort(key=lambda l: l.kw_pos)
     return loops
 
